@@ -272,9 +272,9 @@ func run(out *Out, r *Rand, tier string, replay []string) {
 		out.Close("replay")
 		return
 	}
-	n := 1500
+	n := 6000
 	if tier == "thorough" {
-		n = 40000
+		n = 150000
 	}
 	skipped := 0
 	emit := func(kind string, segs [][]byte, expect string) {
